@@ -88,11 +88,13 @@ func props3(c *hlib.Ctx, name string, s sdf3, desc string, q model3d.Coord3D) {
 	// Smoothness of the surface around the nearest point: the normals reported around p agree.
 	hs := 1e-4 * diam
 	smooth := true
+	maxVar := 0.0
 	for i := 0; i < 3 && smooth; i++ {
 		for _, sgn := range []float64{-1, 1} {
 			var d [3]float64
 			d[i] = sgn * hs
 			n1, _ := s.NormalSDF(p.Add(model3d.NewCoord3DArray(d)))
+			maxVar = math.Max(maxVar, n1.Dist(n))
 			if n1.Dist(n) > 0.02 {
 				smooth = false
 				break
@@ -111,10 +113,13 @@ func props3(c *hlib.Ctx, name string, s sdf3, desc string, q model3d.Coord3D) {
 		return
 	}
 	c.Stat("props3/"+name+"/gradient-checked", 1)
-	if e := g1.Add(n).Norm(); e > 1e-4 {
+	// the reported normals vary by maxVar around the nearest point (curvature, or a nearly flat
+	// apex/crease), so "normal = -gradient" is only meaningful to that accuracy
+	gtol := 1e-4 + 2*maxVar
+	if e := g1.Add(n).Norm(); e > gtol {
 		fail("normal-is-not-minus-gradient", fmt.Sprintf("normal=%v -grad=%v |diff|=%v nearest=%v", n, g1.Scale(-1), e, p))
 	}
-	if e := q.Sub(p).Add(n.Scale(val)).Norm(); e > 1e-6*sc+1e-4*math.Abs(val) {
+	if e := q.Sub(p).Add(n.Scale(val)).Norm(); e > 1e-6*sc+gtol*math.Abs(val) {
 		fail("normal-not-parallel-to-offset", fmt.Sprintf("q-p=%v sdf=%v normal=%v", q.Sub(p), val, n))
 	}
 }
@@ -167,11 +172,13 @@ func props2(c *hlib.Ctx, name string, s sdf2, desc string, q model2d.Coord) {
 	}
 	hs := 1e-4 * diam
 	smooth := true
+	maxVar := 0.0
 	for i := 0; i < 2 && smooth; i++ {
 		for _, sgn := range []float64{-1, 1} {
 			var d [2]float64
 			d[i] = sgn * hs
 			n1, _ := s.NormalSDF(p.Add(model2d.NewCoordArray(d)))
+			maxVar = math.Max(maxVar, n1.Dist(n))
 			if n1.Dist(n) > 0.02 {
 				smooth = false
 				break
@@ -190,10 +197,13 @@ func props2(c *hlib.Ctx, name string, s sdf2, desc string, q model2d.Coord) {
 		return
 	}
 	c.Stat("props2/"+name+"/gradient-checked", 1)
-	if e := g1.Add(n).Norm(); e > 1e-4 {
+	// the reported normals vary by maxVar around the nearest point (curvature, or a nearly flat
+	// apex/crease), so "normal = -gradient" is only meaningful to that accuracy
+	gtol := 1e-4 + 2*maxVar
+	if e := g1.Add(n).Norm(); e > gtol {
 		fail("normal-is-not-minus-gradient", fmt.Sprintf("normal=%v -grad=%v |diff|=%v nearest=%v", n, g1.Scale(-1), e, p))
 	}
-	if e := q.Sub(p).Add(n.Scale(val)).Norm(); e > 1e-6*sc+1e-4*math.Abs(val) {
+	if e := q.Sub(p).Add(n.Scale(val)).Norm(); e > 1e-6*sc+gtol*math.Abs(val) {
 		fail("normal-not-parallel-to-offset", fmt.Sprintf("q-p=%v sdf=%v normal=%v", q.Sub(p), val, n))
 	}
 }
